@@ -139,12 +139,12 @@ static void exec(const plan_t *p)
                 if (isnew) made = spif_mbuff_new(); else ok = spif_mbuff_init(self);
                 m_set(m, "", 0);
             } else if (!strcmp(what, "_ptr")) {
-                if (isnew) made = spif_mbuff_new_from_ptr(arg, (spif_memidx_t)o->slen); else ok = spif_mbuff_init_from_ptr(self, arg, (spif_memidx_t)o->slen);
+                if (isnew) made = viaclass ? (spif_mbuff_t)(SPIF_MBUFFCLASS_VAR(mbuff)->new_from_ptr)(arg, (spif_memidx_t)o->slen) : spif_mbuff_new_from_ptr(arg, (spif_memidx_t)o->slen); else ok = viaclass ? (spif_bool_t)(long)(SPIF_MBUFFCLASS_VAR(mbuff)->init_from_ptr)(self, arg, (spif_memidx_t)o->slen) : spif_mbuff_init_from_ptr(self, arg, (spif_memidx_t)o->slen);
                 m_set(m, o->s, arg ? o->slen : 0);
             } else if (!strcmp(what, "_buff")) {
                 long long l = o->a[1], sz = o->a[2];
                 if (l < 0 || sz < 0 || (size_t)l > o->slen) goto skip;
-                if (isnew) made = spif_mbuff_new_from_buff(arg, l, sz); else ok = spif_mbuff_init_from_buff(self, arg, l, sz);
+                if (isnew) made = viaclass ? (spif_mbuff_t)(SPIF_MBUFFCLASS_VAR(mbuff)->new_from_buff)(arg, l, sz) : spif_mbuff_new_from_buff(arg, l, sz); else ok = viaclass ? (spif_bool_t)(long)(SPIF_MBUFFCLASS_VAR(mbuff)->init_from_buff)(self, arg, l, sz) : spif_mbuff_init_from_buff(self, arg, l, sz);
                 m_set(m, o->s, arg ? (size_t)l : 0);
                 /* (the capacity it ends up with is the constructor's business: check_obj wants it not below the length and owned) */
             } else if (!strcmp(what, "_fp")) {
@@ -154,7 +154,7 @@ static void exec(const plan_t *p)
                 if (pos > o->slen) pos = o->slen;
                 fp = simfd_cookie_stream(o->s, o->slen, seekable, seekable ? pos : 0);
                 if (!seekable) pos = 0;
-                if (isnew) made = spif_mbuff_new_from_fp(fp); else ok = spif_mbuff_init_from_fp(self, fp);
+                if (isnew) made = viaclass ? (spif_mbuff_t)(SPIF_MBUFFCLASS_VAR(mbuff)->new_from_fp)(fp) : spif_mbuff_new_from_fp(fp); else ok = viaclass ? (spif_bool_t)(long)(SPIF_MBUFFCLASS_VAR(mbuff)->init_from_fp)(self, fp) : spif_mbuff_init_from_fp(self, fp);
                 fclose(fp);
                 m_set(m, o->s + pos, o->slen - pos);
                 may_fail = (o->slen - pos == 0);      /* B.2: empty source: return value DC */
@@ -168,7 +168,7 @@ static void exec(const plan_t *p)
                 if (pos > o->slen) pos = o->slen;
                 if (!seekable) pos = 0;
                 fd = simfd_new_src(0, o->s, o->slen, seekable, 0, pos);
-                if (isnew) made = spif_mbuff_new_from_fd(fd); else ok = spif_mbuff_init_from_fd(self, fd);
+                if (isnew) made = viaclass ? (spif_mbuff_t)(SPIF_MBUFFCLASS_VAR(mbuff)->new_from_fd)(fd) : spif_mbuff_new_from_fd(fd); else ok = viaclass ? (spif_bool_t)(long)(SPIF_MBUFFCLASS_VAR(mbuff)->init_from_fd)(self, fd) : spif_mbuff_init_from_fd(self, fd);
                 delivered = simfd_src_pos(0, fd) - pos;
                 simfd_close_harness(0, fd);
                 if (seekable) { m_set(m, o->s + pos, o->slen - pos); may_fail = (o->slen - pos == 0); probe_hit("fd_regular_file"); }
@@ -228,8 +228,8 @@ static void exec(const plan_t *p)
         } else if (!strcmp(k, "append_ptr") || !strcmp(k, "prepend_ptr")) {
             spif_bool_t b;
             if (!self->buff) probe_hit("append_on_empty");
-            if (k[0] == 'a') b = spif_mbuff_append_from_ptr(self, arg, (spif_memidx_t)alen);
-            else b = spif_mbuff_prepend_from_ptr(self, arg, (spif_memidx_t)alen);
+            if (k[0] == 'a') b = viaclass ? (spif_bool_t)(long)VIA(append_from_ptr)(self, arg, (spif_memidx_t)alen) : spif_mbuff_append_from_ptr(self, arg, (spif_memidx_t)alen);
+            else b = viaclass ? (spif_bool_t)(long)VIA(prepend_from_ptr)(self, arg, (spif_memidx_t)alen) : spif_mbuff_prepend_from_ptr(self, arg, (spif_memidx_t)alen);
             if (!arg) { (void)b; probe_hit("null_argument"); }
             else { if (!b) sim_fail("MISMATCH(return)", "%s returned FALSE", k); m_insert(m, k[0] == 'a' ? m->len : 0, arg, o->slen); }
         } else if (!strcmp(k, "clear")) {
@@ -268,7 +268,7 @@ static void exec(const plan_t *p)
                 b = viaclass ? (spif_bool_t)(long)VIA(splice)(self, (spif_memidx_t)idx, (spif_memidx_t)cnt, other) : spif_mbuff_splice(self, idx, cnt, other);
             } else {
                 if (arg) { ins = arg; il = o->slen; }
-                b = spif_mbuff_splice_from_ptr(self, idx, cnt, arg, (spif_memidx_t)alen);
+                b = viaclass ? (spif_bool_t)(long)VIA(splice_from_ptr)(self, (spif_memidx_t)idx, (spif_memidx_t)cnt, arg, (spif_memidx_t)alen) : spif_mbuff_splice_from_ptr(self, idx, cnt, arg, (spif_memidx_t)alen);
             }
             if (idx < 0) idx += L;
             expect_ok = idx >= 0 && idx < L;
@@ -328,7 +328,7 @@ static void exec(const plan_t *p)
                 if (!other) { (void)got; probe_hit("null_argument"); goto after; }          /* the answer for "no needle" is not specified */
             } else {
                 if (arg) { nd = arg; nl = alen; }
-                got = spif_mbuff_find_from_ptr(self, arg, (spif_memidx_t)alen);
+                got = viaclass ? (long long)VIA(find_from_ptr)(self, arg, (spif_memidx_t)alen) : spif_mbuff_find_from_ptr(self, arg, (spif_memidx_t)alen);
                 if (!arg) { (void)got; probe_hit("null_argument"); goto after; }
             }
             want = (long long)m->len;
@@ -342,7 +342,7 @@ static void exec(const plan_t *p)
             int expect_ok;
             spif_mbuff_t sub = NULL; unsigned char *sp = NULL;
             if (k[7] == 0) sub = viaclass ? (spif_mbuff_t)VIA(subbuff)(self, (spif_memidx_t)idx, (spif_memidx_t)cnt) : spif_mbuff_subbuff(self, idx, cnt);
-            else sp = spif_mbuff_subbuff_to_ptr(self, idx, cnt);
+            else sp = viaclass ? (spif_byteptr_t)VIA(subbuff_to_ptr)(self, (spif_memidx_t)idx, (spif_memidx_t)cnt) : spif_mbuff_subbuff_to_ptr(self, idx, cnt);
             if (idx < 0) idx += L;
             expect_ok = idx >= 0 && idx < L;
             if (expect_ok) { if (cnt <= 0) cnt = L - idx + cnt; expect_ok = cnt >= 0; if (cnt > L - idx) cnt = L - idx; }
@@ -385,8 +385,8 @@ static void exec(const plan_t *p)
             }
         } else if (!strcmp(k, "cmp_ptr") || !strcmp(k, "ncmp_ptr")) {
             spif_cmp_t got;
-            if (k[0] == 'c') got = spif_mbuff_cmp_with_ptr(self, arg, (spif_memidx_t)alen);
-            else got = spif_mbuff_ncmp_with_ptr(self, arg, (spif_memidx_t)alen);
+            if (k[0] == 'c') got = viaclass ? (spif_cmp_t)(long)VIA(cmp_with_ptr)(self, arg, (spif_memidx_t)alen) : spif_mbuff_cmp_with_ptr(self, arg, (spif_memidx_t)alen);
+            else got = viaclass ? (spif_cmp_t)(long)VIA(ncmp_with_ptr)(self, arg, (spif_memidx_t)alen) : spif_mbuff_ncmp_with_ptr(self, arg, (spif_memidx_t)alen);
             if (!arg) { (void)got; probe_hit("null_argument"); }
             else {
                 /* [T] the first len bytes of the object against the len bytes given; an object shorter than len is a proper prefix and sorts first */
